@@ -21,6 +21,7 @@ type harness struct {
 	// which variant of the code is under test (decided by the probes)
 	l9, unkLast, btOver, btSkip bool
 	probeHists                  []runnerHistory
+	writeFailHangs              int
 }
 
 func repeatInt(v, n int) []int {
@@ -55,6 +56,9 @@ func main() {
 	h.runnerAll()
 	h.blockTxAll()
 	h.fullAll()
+	h.headstateFamily()
+	h.sdlFamily()
+	h.blockTxWriteFailures()
 	lib.Finish(f, res)
 }
 
